@@ -772,6 +772,10 @@ def run(tier, procs=None, only=None):
     )
 
 
+# every real-library oracle of this property (each returns (reproduced, detail)); used to confirm structural facts that carry no replay of their own
+ALL_REPLAYS = [replay_table, replay_mixed, replay_history, replay_collide]
+
+
 def replay(data):
     if "/mixed" in data.get("key", "") or "mixed/" in data.get("label", ""):
         ok, detail = replay_mixed(data.get("cex") or {})
